@@ -145,7 +145,8 @@ def _blocks(root):
 def structure(tree):
     """(1) `if c: ..terminator  else: B` -> `if c: ..terminator` ; B     (else after return / raise / continue / break is dropped)
        (2) in tail position of a loop body: `if c: continue` ; REST  ->  `if not c: REST`   (guard clauses become nesting)
-       (3) `if p: (if q: S)` without else on either -> `if p and q: S`"""
+       (3) `if p: (if q: S)` without else on either -> `if p and q: S`
+       (4) `if c: A..return/raise` ; REST..return/raise  ->  `if not c: REST` ; A   when `not c` has the better polarity"""
     def and_values(t):
         return list(t.values) if isinstance(t, ast.BoolOp) and isinstance(t.op, ast.And) else [t]
 
@@ -160,6 +161,18 @@ def structure(tree):
                     st.orelse = []
                     blk[i + 1:i + 1] = tail
                     last = i == len(blk) - 1
+                if not st.orelse and st.body and isinstance(st.body[-1], (ast.Return, ast.Raise)) and not last and \
+                        isinstance(blk[-1], (ast.Return, ast.Raise)):                            # (4)
+                    nt = NNF().visit(_negate(st.test))
+                    if _polarity(nt) < _polarity(st.test):
+                        rest = blk[i + 1:]
+                        new = ast.copy_location(ast.If(test=nt, body=rest, orelse=[]), st)
+                        tail = st.body
+                        del blk[i:]
+                        blk.append(new)
+                        blk.extend(tail)
+                        st = new
+                        last = False
                 if loop_tail and not st.orelse and len(st.body) == 1 and isinstance(st.body[0], ast.Continue) and not last:   # (2)
                     rest = blk[i + 1:]
                     new = ast.copy_location(ast.If(test=_negate(st.test), body=rest, orelse=[]), st)
@@ -190,6 +203,43 @@ def structure(tree):
                 block(st.body, False)
             i += 1
     block(tree.body, False)
+    return tree
+
+
+def defaults_to_else(tree):
+    """x = D ; if c1: x = A  elif c2: x = B     ->    if c1: x = A  elif c2: x = B  else: x = D
+    (D a constant, an empty literal or a name; every arm assigns x at its top level; x is read nowhere in the chain)"""
+    def pure_default(e):
+        return isinstance(e, (ast.Constant, ast.Name)) or (isinstance(e, (ast.List, ast.Tuple, ast.Set)) and not e.elts) or \
+            (isinstance(e, ast.Dict) and not e.keys)
+
+    def arms(st):
+        out = []
+        while True:
+            out.append(st.body)
+            if len(st.orelse) == 1 and isinstance(st.orelse[0], ast.If):
+                st = st.orelse[0]
+            else:
+                return out, st
+    for node, fld, blk in list(_blocks(tree)):
+        i = 0
+        while i < len(blk) - 1:
+            a, st = blk[i], blk[i + 1]
+            if isinstance(a, ast.Assign) and len(a.targets) == 1 and isinstance(a.targets[0], ast.Name) and pure_default(a.value) and \
+                    isinstance(st, ast.If):
+                x = a.targets[0].id
+                bodies, last = arms(st)
+                if not last.orelse and \
+                        all(any(isinstance(s, ast.Assign) and len(s.targets) == 1 and isinstance(s.targets[0], ast.Name) and s.targets[0].id == x
+                                for s in b) for b in bodies) and \
+                        not any(isinstance(y, ast.Name) and y.id == x and isinstance(y.ctx, ast.Load) for y in ast.walk(st)) and \
+                        not (isinstance(a.value, ast.Name) and any(isinstance(y, ast.Name) and y.id == a.value.id and isinstance(y.ctx, ast.Store)
+                                                                   for y in ast.walk(st))):
+                    last.orelse = [a]
+                    a._default_moved = True
+                    del blk[i]
+                    continue
+            i += 1
     return tree
 
 
@@ -266,10 +316,14 @@ def merge_dict_stores(tree):
     return tree
 
 
-def shape(tree):
+def shape(tree, modname=None):
     tree = NNF().visit(tree)
     tree = Shape().visit(tree)
+    if modname is not None:
+        from .inline import inline_helpers
+        tree._inlined_helpers = inline_helpers(tree, modname)
     tree = structure(tree)
+    tree = defaults_to_else(tree)
     tree = NNF().visit(tree)             # the nesting step creates new `not` tests
     tree = loops_to_comprehensions(tree)
     tree = merge_dict_stores(tree)
